@@ -26,7 +26,9 @@ def constantTimeCmp (a b : Option Bytes) (l : Int) : Outcome Int :=
   match a, b with
   | some a, some b => do
     let (borrow, diff) ← cmpLoop a b l.toNat 0 0
-    if borrow = 0 then (if diff ≠ 0 then pure 1 else pure 0) else pure (-1)
+    -- branch-free result: nz = 1 iff some byte differed; borrow = 1 iff a < b
+    let nz : W32 := (diff ||| (0 - diff)) >>> 31
+    pure (((nz &&& (1 - borrow)).toNat : Int) - (borrow.toNat : Int))
   | _, _ => .panic
 
 /-- `getBit(s, idx, carry)` for idx ≥ 0 -/
